@@ -113,6 +113,23 @@ CLAIMED["C10"] = {
     "technique": "Lean 4 theorems (exact integer arithmetic, decode∘encode round trip, induction over host histories) + differential correspondence + independent frame oracle",
 }
 
+CLAIMED["C11"] = {
+    "text": "Proof. Lean theorems: the one frame a Master port's announce timer emits is the encoding of a message whose grandmaster "
+            "identity, quality, priorities, stepsRemoved, UTC offset, time source and leap / traceability flags are exactly the current "
+            "parentDS / currentDS / timePropertiesDS (announce_carries_datasets; flags <-> time properties is lossless: "
+            "time_properties_roundtrip); decisions M1 / M2 write the instance's own attributes - the current default data set, so a "
+            "run-time quality change is advertised after the next BMCA run - with stepsRemoved 0 (decision_m_datasets, "
+            "recommend_m_is_own, quality_change_after_bmca); decision S1 and every later Announce of the parent on the Slave port write "
+            "the announced attributes with stepsRemoved + 1 (decision_s1_datasets, parent_announce_datasets), which the next Announce of "
+            "any Master port then carries (parent_change_in_next_announce); nothing else writes these data sets (timers_keep_datasets, "
+            "frames_keep_datasets, other_announce_keeps_datasets). Model tied by the inst and master streams (all data sets and every "
+            "Announce after every op) plus an independent data-set oracle. One genuine finding is recorded: on M1 / M2 the time "
+            "properties are reset to fixed defaults instead of the ones the instance was constructed with.",
+    "note": "Trusted: Lean kernel; generators. 'While it is grandmaster' / 'while one of its ports is slave' is stated per decision and "
+            "per parent Announce (the events that make it so) plus frame theorems, not as one global invariant.",
+    "technique": "Lean 4 theorems (case analysis over the decision / handler definitions, frame lemmas) + differential correspondence + independent data-set oracle",
+}
+
 CLAIMED["C14"] = {
     "text": "Proof. Lean theorems: a completed peer exchange hands the filter exactly ((t4'-t1)-(t3'-t2))/2 (Spec.peerDelay, `fixed` "
             "division semantics), stamped t4', for every timestamp and correction value; a Pdelay_Resp or follow-up for the current "
